@@ -64,8 +64,9 @@ Definition mention_sub (r : list entry) (m : mention) : ident :=
 Definition consistent (ms : list mention) (r : list entry) (x s : ident) : bool :=
   forallb (fun m => if text_eqb (m_name m) x then text_eqb (mention_sub r m) s else true) ms.
 
+(* ... and a name that is also a builtin is never renamed (read before its definition it means the builtin) *)
 Definition step2 (ms : list mention) (r : list entry) : list entry :=
-  filter (fun e => let '(_, old, s) := e in consistent ms r old s) r.
+  filter (fun e => let '(_, old, s) := e in consistent ms r old s && negb (mem old BUILTINS)) r.
 
 (* the nodes grouped under substitute s all carry the same old name *)
 Definition group_ok (r2 : list entry) (s : ident) : bool :=
